@@ -32,4 +32,13 @@ impl AtomicInstant {
     pub(crate) fn set_instant(&self, instant: Instant) {
         *self.instant.write().expect("lock poisoned") = Some(instant);
     }
+
+    /// Sets the instant unless a later one is already stored.
+    pub(crate) fn advance_to(&self, instant: Instant) {
+        let mut guard = self.instant.write().expect("lock poisoned");
+        match *guard {
+            Some(current) if current >= instant => (),
+            _ => *guard = Some(instant),
+        }
+    }
 }
